@@ -197,6 +197,8 @@ class SrcHarness:
         self.rec(ctx, uid + "/the-iterable-is-python's-range-of-the-same-arguments",
                  conj([same(x, y) for x, y in zip(ranges[0].attrs["args"], args)]) if ok else False,
                  detail=f"range called with {len(ranges[0].attrs['args']) if ranges else None} arguments for {len(args)} given")
+        if not ranges:
+            return  # (no range object to follow: the obligation above has failed)
         sub = self.subscribe_fn(obs)
         w.log.clear()
         res = it.call(sub, [self.observer, None], {})
